@@ -666,6 +666,22 @@ func (an *pomAnalysis) effDef(s *pomSlot, name string) *pomPropDef {
 	return nil
 }
 
+// builtin resolves the model properties the generator uses: project.version is the
+// version of the project being read (the child), inherited from its parent when absent.
+func (an *pomAnalysis) builtin(name string) (string, bool) {
+	if name != "project.version" || an.roots[0] == nil {
+		return "", false
+	}
+	proj := an.roots[0].child("project")
+	if v := proj.child("version").textOf(); v != "" {
+		return v, true
+	}
+	if v := proj.child("parent").child("version").textOf(); v != "" {
+		return v, true
+	}
+	return "", false
+}
+
 func placeholders(lit string) []string {
 	var out []string
 	for {
@@ -704,11 +720,13 @@ func (an *pomAnalysis) interp(s *pomSlot) (string, error) {
 		}
 		b.WriteString(lit[:i])
 		name := lit[i+2 : i+j]
-		d := an.effDef(s, name)
-		if d == nil {
+		if d := an.effDef(s, name); d != nil {
+			b.WriteString(d.val)
+		} else if v, ok := an.builtin(name); ok {
+			b.WriteString(v)
+		} else {
 			return "", fmt.Errorf("property %s of %s is not defined", name, s.name())
 		}
-		b.WriteString(d.val)
 		lit = lit[i+j+1:]
 	}
 	b.WriteString(lit)
@@ -753,6 +771,22 @@ func pomUpdateClasses(an *pomAnalysis, ups []pomUpdate, name string) []string {
 		return nil
 	}
 	set := map[string]bool{}
+	// the same groupId:artifactId:type:classifier carries a version in several declarations
+	keys := map[string]int{}
+	for _, s := range an.slots {
+		if s.name() == name && s.verNode != nil {
+			t := s.typ
+			if t == "" {
+				t = "jar"
+			}
+			keys[t+"|"+s.classif]++
+		}
+	}
+	for _, n := range keys {
+		if n > 1 {
+			set["c13.duplicate_key_declarations"] = true
+		}
+	}
 	for _, s := range an.slots {
 		if s.name() != name || s.verNode == nil {
 			continue
@@ -768,6 +802,8 @@ func pomUpdateClasses(an *pomAnalysis, ups []pomUpdate, name string) []string {
 		for _, p := range phs {
 			d := an.effDef(s, p)
 			if d == nil {
+				// a model property (project.version): there is no definition to rewrite
+				set["c13.property_defined_elsewhere"] = true
 				continue
 			}
 			// the definition in force lives in another file, or in another scope, than the
@@ -798,9 +834,36 @@ func pomUpdateClasses(an *pomAnalysis, ups []pomUpdate, name string) []string {
 	return out
 }
 
+// prologHasProjectLiteral: text before the root element contains "<project".
+func prologHasProjectLiteral(doc *xnode) bool {
+	if doc == nil {
+		return false
+	}
+	for _, k := range doc.kids {
+		if k.kind == xElem {
+			return false
+		}
+		if strings.Contains(k.text, "<project") {
+			return true
+		}
+	}
+	return false
+}
+
+// pomDocClasses returns the known-finding classes of the documents themselves.
+func pomDocClasses(an *pomAnalysis) []string {
+	if prologHasProjectLiteral(an.roots[0]) || prologHasProjectLiteral(an.roots[1]) {
+		return []string{"c13.project_literal_in_prolog"}
+	}
+	return nil
+}
+
 // pomClasses returns the known-finding classes the whole update set falls in.
 func pomClasses(an *pomAnalysis, ups []pomUpdate) []string {
 	set := map[string]bool{}
+	for _, c := range pomDocClasses(an) {
+		set[c] = true
+	}
 	for _, u := range ups {
 		for _, c := range pomUpdateClasses(an, ups, u.Name) {
 			set[c] = true
@@ -921,26 +984,34 @@ func propC13Pom(c *pomCase) (ev.Outcome, error) {
 		ups = append(ups, result.PackageUpdate{Name: r.Req.Name, VersionFrom: old.Version, VersionTo: newV, Type: old.Type.Clone(), Transitive: !direct})
 		addressed[r.Req.Name] = true
 	}
+	// slotHit: the declarations that carry a version and are addressed by an update
+	slotHit := map[*pomSlot]bool{}
 	for _, s := range an.slots {
 		newV, ok := to[s.name()]
-		if !ok || addressed[s.name()] || s.verNode == nil {
+		if !ok || s.verNode == nil {
 			continue
 		}
 		if s.visible {
-			return o, fmt.Errorf("harness: %s is declared in the effective model but the reader does not list it", s.name())
+			if !addressed[s.name()] {
+				return o, fmt.Errorf("harness: %s is declared in the effective model but the reader does not list it", s.name())
+			}
+			slotHit[s] = true
+			continue
 		}
-		if s.file == 1 {
-			// The suggester only proposes updates for declarations of the manifest itself
-			// (OriginalDependency over the base project's own declarations), and FixVulns
-			// never addresses plugin or profile dependencies: no caller produces this update.
-			return o, fmt.Errorf("bad case: update of %s, a plugin/profile dependency of the parent POM, which no caller addresses", s.name())
-		}
-		if strings.Contains(s.verLit, "${") {
-			return o, fmt.Errorf("bad case: update of %s whose requirement %q is not interpolated by the reader (the suggester skips it)", s.name(), s.verLit)
+		// Declarations outside the effective model (inactive profiles, pluginManagement
+		// plugins) are only reached by the Update path: the suggester proposes an update for
+		// those of the manifest itself (not of a parent POM: OriginalDependency looks at the
+		// base project's own declarations) whose version is literal.
+		if s.file == 1 || strings.Contains(s.verLit, "${") {
+			if !addressed[s.name()] {
+				return o, fmt.Errorf("bad case: update of %s (%s, declared %q), which no caller addresses", s.name(), originName(s), s.verLit)
+			}
+			continue
 		}
 		if s.verLit == newV {
 			return o, fmt.Errorf("bad case: update of %s to its current version", s.name())
 		}
+		slotHit[s] = true
 		d := maven.Dependency{GroupID: maven.String(s.g), ArtifactID: maven.String(s.a), Type: maven.String(s.typ), Classifier: maven.String(s.classif), Scope: maven.String(s.scope), Exclusions: s.excl}
 		if d.Scope == "test" {
 			d.Scope = ""
@@ -950,6 +1021,8 @@ func propC13Pom(c *pomCase) (ev.Outcome, error) {
 			origin = "management"
 		}
 		ups = append(ups, result.PackageUpdate{Name: s.name(), VersionFrom: s.verLit, VersionTo: newV, Type: resolve.MavenDepType(d, origin)})
+	}
+	for s := range slotHit {
 		addressed[s.name()] = true
 	}
 	for n := range to {
@@ -1005,7 +1078,7 @@ func propC13Pom(c *pomCase) (ev.Outcome, error) {
 	// of the property definitions in force for them may differ.
 	may := map[*xnode]bool{}
 	for _, s := range an.slots {
-		if _, ok := to[s.name()]; !ok || s.verNode == nil {
+		if !slotHit[s] {
 			continue
 		}
 		may[s.verNode] = true
@@ -1050,11 +1123,11 @@ func propC13Pom(c *pomCase) (ev.Outcome, error) {
 			return o, fmt.Errorf("after the update: %v", err)
 		}
 		want := inVer[s]
-		if nv, ok := to[s.name()]; ok {
-			want = nv
+		if slotHit[s] {
+			want = to[s.name()]
 		}
 		if got != want {
-			if _, ok := to[s.name()]; ok {
+			if slotHit[s] {
 				return o, fmt.Errorf("Write returned nil for %s but %s (%s, declared %q) now requires %q, want %q", describeUpdates(ups), s.name(), originName(s), s.verLit, got, want)
 			}
 			return o, fmt.Errorf("updates %s changed a requirement that was not addressed: %s (%s, declared %q) required %q, now %q", describeUpdates(ups), s.name(), originName(s), s.verLit, want, got)
